@@ -45,6 +45,7 @@ pub enum ClientWriteCommand {
     CSet(Key, Value, CasVersion, bool),
     Delete(Key),
     PDelete(RequestPattern),
+    Import(String),
 }
 
 #[derive(Debug, Clone, Serialize, Deserialize)]
